@@ -236,6 +236,15 @@ func execStep(st Step, in, out string, optimize bool) (err error, panicked strin
 	return fmt.Errorf("unknown op %q", st.Op), ""
 }
 
+func validate(file string) (err error) {
+	defer func() {
+		if r := recover(); r != nil {
+			err = fmt.Errorf("panic: %v", r)
+		}
+	}()
+	return api.ValidateFile(file, newConf(true))
+}
+
 func innermostFrame(stack []byte) string {
 	lines := strings.Split(string(stack), "\n")
 	for _, ln := range lines {
@@ -258,9 +267,9 @@ type Violation struct {
 
 // Case is a replayable history.
 type Case struct {
-	Doc      string `json:"doc"`                // "gen" or a corpus file name
-	Index    int    `json:"index"`              // generator stream index
-	Optimize bool   `json:"optimize"`           // conf.Optimize of every call
+	Doc      string `json:"doc"`      // "gen" or a corpus file name
+	Index    int    `json:"index"`    // generator stream index
+	Optimize bool   `json:"optimize"` // conf.Optimize of every call
 	Steps    []Step `json:"steps"`
 	Note     string `json:"note,omitempty"`
 }
@@ -409,6 +418,7 @@ func runCase(c *Case, input []byte, start []PageM, dir string, st stats) (all []
 		return nil, "write: " + err.Error()
 	}
 	list := cloneList(start)
+	producer := -1 // index of the step that wrote cur, -1: the input document
 	for k, step := range c.Steps {
 		n := len(list)
 		collect := step.Op == "collect"
@@ -433,6 +443,14 @@ func runCase(c *Case, input []byte, start []PageM, dir string, st stats) (all []
 		if err != nil {
 			msg := err.Error()
 			st["steps_failed"]++
+			// Who is to blame? If pdfcpu's own validation rejects the file this step was given, it is the
+			// earlier step that wrote it (the generated / corpus input itself is known to validate).
+			if verr := validate(cur); verr != nil && producer >= 0 {
+				p := c.Steps[producer]
+				all = append(all, Violation{Key: "op=" + p.Op + "/class=invalid-output/" + errClass(verr.Error()),
+					What: fmt.Sprintf("%s wrote a document that pdfcpu's own validation rejects (%v); the next step %s fails: %s", p, verr, step, msg), Step: producer})
+				return all, "invalid-intermediate-document"
+			}
 			all = append(all, Violation{Key: "op=" + step.Op + "/class=error/" + errClass(msg), What: fmt.Sprintf("%s on a valid %d-page document fails: %s", step, n, msg), Step: k})
 			continue
 		}
@@ -480,7 +498,7 @@ func runCase(c *Case, input []byte, start []PageM, dir string, st stats) (all []
 		if cur != first {
 			os.Remove(cur)
 		}
-		cur = out
+		cur, producer = out, k
 	}
 	return all, ""
 }
